@@ -149,6 +149,7 @@ class Builder:
                 or isinstance(obj, BranchStatement)
                 or isinstance(obj, CaseStatement)
             ):
+                obj = rebuild_statement_in_context(obj, context, gate_context)
                 statements.append(obj)
             elif isinstance(obj, UsePulsesStatement):
                 usepulses.append(obj)
@@ -419,6 +420,15 @@ def rebuild_macro_in_context(macro, context, gate_context):
     return new_macro
 
 
+def rebuild_statement_in_context(statement, context, gate_context):
+    """Like rebuild_macro_in_context, for a statement of the circuit body
+    that may have been built before the circuit's gates were known."""
+
+    visitor = RebuildMacroInContextVisitor(context, gate_context)
+    _changed, new_statement = visitor.visit(statement)
+    return new_statement
+
+
 class RebuildMacroInContextVisitor(Visitor):
     """Rebuild a macro in some context. The only changes that need to be
     made are to create a new gate if the old one referenced a macro in
@@ -495,7 +505,14 @@ class RebuildMacroInContextVisitor(Visitor):
             new_gate = gate_def(*args)
             return True, new_gate
         else:
-            return False, gate
+            if gate_def is gate.gate_def:
+                return False, gate
+            # A statement built on its own (e.g. by CircuitBuilder.loop or
+            # CircuitBuilder.macro) has a made-up definition; link it to
+            # the definition the circuit knows by this name.
+            args = gate.parameters.values()
+            new_gate = gate_def(*args)
+            return True, new_gate
 
 
 class GateMemoizer:
